@@ -559,6 +559,12 @@ func (c *Ctx) encoderPath(p *Path, par types.Object) (class, why string, feasibl
 			}
 		case "(*encoding/json.Encoder).SetEscapeHTML":
 		case "(*encoding/json.Encoder).Encode":
+			if len(s.Call.Args) == 1 {
+				// Encode(any(val)): the conversion the compiler inserts anyway
+				if cv, ok := s.Call.Args[0].(TConv); ok && cv.To != nil && types.IsInterface(cv.To) {
+					s.Call.Args = []Term{cv.X}
+				}
+			}
 			if encoded || len(s.Call.Args) != 1 || !isParamTerm(s.Call.Args[0], par) || encT == nil || !sameTerm(s.Call.Recv, encT) {
 				effWhy = "Encode is not applied exactly once to the helper's parameter"
 			}
